@@ -25,6 +25,7 @@ if ! go build -overlay "$OV/overlay.json" -o "$V/bin/mc-c11" ./cmd/c11 2>"$OV/bu
   echo "C11: the sync overlay does not compile against the current sources (see $OV/build.err); running the free-running race pass only" >&2
 fi
 go build -race -o "$V/bin/mc-c11race" ./cmd/c11race || { echo "BUILD-FAILED: c11race" >&2; exit 3; }
+if [ "$tier" = build ]; then echo "C11 binaries built (hooks=$hooks)"; exit 0; fi
 if [ "$hooks" = on ]; then
   C11_RACE_BIN="$V/bin/mc-c11race" exec "$V/bin/mc-c11" "$tier"
 else
